@@ -129,3 +129,26 @@ V("C19", "join-in-finally", MTAN, "        with progress_bar(total=len(self._des
 V("C19", "exitcode-none-ok", PAR, "if w.exitcode is not None and w.exitcode != 0:", "if w.exitcode is not None and w.exitcode != 0 and False:", "HOLDS",
   note="limit of the rule: the condition under which the helper raises is not interpreted (documented in DESIGN.md)")
 V("C19", "P-message", PAR, 'f"a worker process failed (exit code {w.exitcode}); see its error message above"', 'f"worker died with status {w.exitcode}"', "HOLDS")
+
+# ---------------------------------------------------------------- C07
+V("C07", "revert-linspace", SAMP, "            n1 = int(np.ceil(coarse_idx1[hi1] - coarse_idx1[lo1])) + 1", "            n1 = max(int(np.ceil(coarse_idx1[hi1] - coarse_idx1[lo1])), 1)", "C07.R5")
+V("C07", "children-sliced", TOAST, "    for child in _div4(tile):\n        for item in _postfix_corner(child, depth, filter, bottom_only):", "    for child in _div4(tile)[:3]:\n        for item in _postfix_corner(child, depth, filter, bottom_only):", "C07.R2")
+V("C07", "mask-three", SAMP, "            ok &= (iy >= 0) & (iy < ny)", "            ok &= (iy < ny)", "C07.R3")
+V("C07", "lat-bounds-swapped", SAMP, "        return lon_l, lon_r, lat_d, lat_u", "        return lon_l, lon_r, lat_u, lat_d", "C07.R4")
+V("C07", "filter-passes-corners", SAMP, "        corner_lonlats = np.asarray(tile.corners)\n", "        corner_lonlats = tile.corners\n", "C07.R1")
+V("C07", "prune-on-level", TOAST, "    if n > 1 and not filter(tile):\n        return", "    if n > 1 and (not filter(tile) or n > 6):\n        return", "C07.R2")
+V("C07", "P-np-array", SAMP, "        corner_lonlats = np.asarray(tile.corners)\n", "        corner_lonlats = np.array(tile.corners)\n", "HOLDS")
+V("C07", "P-max-2", SAMP, "            n1 = int(np.ceil(coarse_idx1[hi1] - coarse_idx1[lo1])) + 1", "            n1 = max(int(np.ceil(coarse_idx1[hi1] - coarse_idx1[lo1])), 2)", "HOLDS")
+
+# ---------------------------------------------------------------- C08
+V("C08", "gx1-no-minus-one", STUDY, "        img_gx1 = (\n            self._img_gx0 + self._width - 1\n        )  # inclusive", "        img_gx1 = (\n            self._img_gx0 + self._width\n        )  # inclusive", "C08.R2")
+V("C08", "range-exclusive", STUDY, "        for ity in range(tile_start_ty, tile_end_ty + 1):", "        for ity in range(tile_start_ty, tile_end_ty):", "C08.R")
+V("C08", "flip-256", STUDY, "                    flip_tile_y1 = 255 - tile_y", "                    flip_tile_y1 = 256 - tile_y", "C08.R3")
+V("C08", "sub-offset-axis", STUDY, "        sub_tiling._img_gx0 += subim_ix\n        sub_tiling._img_gy0 += subim_iy", "        sub_tiling._img_gx0 += subim_iy\n        sub_tiling._img_gy0 += subim_ix", "C08.R")
+V("C08", "sub-offset-dropped", STUDY, "        sub_tiling._img_gx0 += subim_ix\n", "", "C08.R")
+V("C08", "xy-swapped-fill", STUDY, "image.fill_into_maskable_buffer(buffer, iy_idx, ix_idx, by_idx, bx_idx)", "image.fill_into_maskable_buffer(buffer, ix_idx, iy_idx, by_idx, bx_idx)", "C08.R3")
+V("C08", "count-drift", STUDY, "        return (tile_end_ty + 1 - tile_start_ty) * (tile_end_tx + 1 - tile_start_tx)", "        return (tile_end_ty - tile_start_ty) * (tile_end_tx + 1 - tile_start_tx)", "C08.R1")
+V("C08", "tile-gx1-256", STUDY, "                tile_gx1 = tile_gx0 + 255", "                tile_gx1 = tile_gx0 + 256", "C08.R2")
+V("C08", "clone-drift", MWCS, "                    flip_tile_y1 = 255 - tile_y\n                    flip_tile_y0 = flip_tile_y1 - height\n\n                    if flip_tile_y0 == -1:\n                        flip_tile_y0 = None  # with", "                    flip_tile_y1 = 255 - tile_y\n                    flip_tile_y0 = flip_tile_y1 - height + 1\n\n                    if flip_tile_y0 == -1:\n                        flip_tile_y0 = None  # with", "C08.R5")
+V("C08", "P-renamed", STUDY, "                overlap_width = img_overlap_x1 + 1 - img_overlap_x0", "                overlap_width = 1 + (img_overlap_x1 - img_overlap_x0)", "HOLDS")
+V("C08", "P-offset-shift", STUDY, "        self._img_gx0 = (self._p2n - self._width) // 2", "        self._img_gx0 = (self._p2n - self._width) >> 1", "UNDECIDED", note="an equivalent spelling the normaliser does not know: refused, not judged")
